@@ -24,6 +24,7 @@ RULE = (
     "installed, save_as / save_params -> fresh model -> set_params reproduces parameters and NLL.  non-trivial = NLL decreased by "
     "> 1 and >= 2 constraint kinds active; distinct = (minimiser, card key, history step)."
 )
+RULE += '  Also: the repeated fit with a scaled objective (grad_scale 4 / 0.25); constraints on the phase of a polar coupling (fixed phase with the radius negative at the minimum, phase bounded outside [-pi, pi)).'
 ASSUMPTIONS = [
     "minimiser name 'root' needs PyROOT (absent) and fit_multinest is a stub: not driven",
     "a named minimiser that raises after minimising is a refuting event (the property quantifies over every offered name)",
